@@ -288,7 +288,7 @@ def run(ctx):
         ctx.ob("C12.M2.emit-fast-path-strict-set", tag + "eval_impl|strict_undefined", {"Strict", "SemiStrict"} in sets,
                "no test for exactly {Strict, SemiStrict} (printing an undefined) found; tests: %s" % [sorted(x) for x in sets],
                ev.loc)
-        ev = prog.fn(EI)
+        ev = tabled.get(EI) or prog.fn(EI)      # the Emit handler may have been moved into a helper (`emit_value(..)`)
         # ---- M7: printing decides undefined-ness on every path.  Whatever else the Emit handler looks at (output
         # mode, formatter kind), each path through it passes the {Strict, SemiStrict} test or hands the value to the
         # formatter, which makes the same decision; a path that skips both prints/drops an undefined silently.
@@ -314,10 +314,10 @@ def run(ctx):
         # the handlers are read through helpers a maintainer may have moved the tail of the lookup into (the functions
         # this rule looks for stay calls)
         from .. import inline
-        ev0, regs0 = ev, regs
+        ev0, regs0 = prog.fn(EI), regs
         ev = inline.view(prog, ev0, keep=("handle_undefined", "get_attr_fast", "get_item_opt", "get_item", "get_attr", "is_undefined",
                                           "push", "pop", "slice", "validate", "peek"))
-        if ev is not ev0:
+        if True:
             disp8 = arms.enum_switches(prog, ev, INSTR)
             ctx.need(disp8, "C12.M8: dispatch switch not found in the helper-transparent view")
             regs = arms.arm_regions(prog, ev, disp8[0][0], INSTR)
@@ -371,7 +371,8 @@ def run(ctx):
             ctx.ob("C12.M8.failed-lookup-asks-the-mode-about-the-container", tag + "eval_impl|Slice", ok_s,
                    "the Slice handler slices an undefined value unless the mode is Strict (`missing[1:]` is `[]` under SemiStrict "
                    "and Lenient): like item access it has to ask handle_undefined about the sliced value", ev.loc)
-        ev, regs = ev0, regs0
+        ev = ev0
+        regs = arms.arm_regions(prog, ev, arms.enum_switches(prog, ev, INSTR)[0][0], INSTR)
         # ---- M3
         n3 = 0
         for f in prog.fns.values():
